@@ -429,6 +429,9 @@ def map_history(chk, program):
                                                                                         ['a claim from another address with the same NAME changes the entries of other addresses']))
             step('same-claim-from-7', CP, CID, 7, 12345, True, lambda r: ([] if m().get(7) is e7 else ['an unchanged NAME replaces the stored identity']) +
                  ([] if excl or r['attached_raw'] is e7 else ['the identity attached is not the stored one']))
+            step('NAME-differing-outside-the-serial-number-from-7', CP, CID, 7, 12345 | (1 << 40), True,
+                 lambda r: ([] if is_new_from(r, 12345 | (1 << 40)) and m().get(7) is not e7 else ['a claim whose NAME differs (same serial number and manufacturer) does not replace the stored identity']) +
+                 ([] if excl or r['attached_raw'] is m().get(7) else ['the identity attached is not the replacement']))
             r6 = step('other-NAME-from-7', CP, CID, 7, 999, True, lambda r: ([] if is_new_from(r, 999) and m().get(7) is not e7 else ['a claim with another NAME does not replace the stored identity']) +
                       ([] if excl or r['attached_raw'] is m().get(7) else ['the identity attached is not the replacement']))
             e7b = m().get(7)
@@ -751,6 +754,7 @@ def mfr_rules(chk, program, consts, stages):
                 chk.check(res[1] == '_decode', 'MFR-GUARD', inst + '::before-reassembly', file=DEC, line=res[2], expected='decided in _decode (no decode, no reassembly access)', found=res[1], nontrivial=False)
     chk.unit('manufacturer_models', n)
     chk.floor('manufacturer_models', n, 60)
+    mfr_history(chk, program, consts, sf, cf, P, ID)
     # probe is lower-cased
     fn, ex = stages['_decode']
     probes = 0
@@ -764,6 +768,38 @@ def mfr_rules(chk, program, consts, stages):
                 chk.check(F.lower_kind(probe, consts) == 'LOWER', 'MFR-NORM', f"_decode::{ast.unparse(node.left)} in self.{node.comparators[0].attr}", file=DEC, line=node.lineno, func='_decode',
                           expected='lower-cased manufacturer name', found=show(probe)[:100])
     chk.floor('manufacturer_probes', probes, 2)
+
+def mfr_history(chk, program, consts, sf, cf, P, ID):
+    """[MFR-HIST] the manufacturer filter follows the latest claim of an address: on one interpreted decoder object (rules_filter.DecodePath), mapping
+    off, with `garmin` excluded and then with `garmin` as the only included manufacturer:
+      ordinary message from 7 (never claimed) -> returned;  claim from 7 by a Garmin device -> returned, stored;  ordinary from 7 -> decided by Garmin;
+      claim from 7 by an Airmar device (another NAME) -> stored;  ordinary from 7 -> decided by Airmar;  ordinary from 9 (never claimed) -> returned.
+    A verdict remembered per address across a claim shows up as a wrong step.  Not interpretable -> no verdict from this clause."""
+    from . import absint as A
+    CP, CID = consts['ISO_CLAIM_PGN'], consts['ISO_CLAIM_PGN_ID']
+    fn = program.fn('decoder', f"{CLS}._decode")
+    for mode in ('exclude', 'include'):
+        try:
+            attrs = F.runtime_attrs(program, sf, cf, consts, [], [])
+            mf_attrs = F.interp_ctor(program, mfr_excl=['Garmin'] if mode == 'exclude' else [], mfr_incl=['Garmin'] if mode == 'include' else [])
+            extra = {'exclude_manufacturer_code': set(mf_attrs.get('exclude_manufacturer_code') or ()), 'include_manufacturer_code': set(mf_attrs.get('include_manufacturer_code') or ()),
+                     'build_network_map': False}
+            if not (extra['exclude_manufacturer_code'] | extra['include_manufacturer_code']):
+                raise A.Unknown('the constructor keeps the manufacturer lists somewhere else')
+            dp = F.DecodePath(program, attrs, consts, extra_self=extra)
+            g_ok = mode == 'include'          # is a Garmin device's traffic returned?
+            steps = [('ordinary-from-7-unclaimed', P, ID, 7, 5, None, True), ('claim-by-garmin', CP, CID, 7, 111, 'Garmin', True), ('ordinary-from-7-after-garmin-claim', P, ID, 7, 5, None, g_ok),
+                     ('claim-by-airmar', CP, CID, 7, 222, 'Airmar', True), ('ordinary-from-7-after-airmar-claim', P, ID, 7, 5, None, not g_ok), ('ordinary-from-9-unclaimed', P, ID, 9, 5, None, True)]
+            rep = []
+            for name, pgn, mid, src, nm, mfr, want in steps:
+                r = dp.feed(pgn, mid, src=src, name_int=nm, mfr=mfr)
+                rep.append((name, want, r['status'] == 'returned'))
+        except (A.Unknown, A.RaiseSignal, teval.EvalUnknown, KeyError, AttributeError, TypeError, AnalysisError) as u:
+            chk.unit(f"mfr_history_{mode}_not_interpretable", f"{type(u).__name__}: {u}"[:200])
+            continue
+        for name, want, got in rep:
+            chk.check(want == got, 'MFR-GUARD', f"history::{mode}=garmin::{name}", file=DEC, line=fn.lineno, func='_decode', expected='returned' if want else 'withheld',
+                      found='returned' if got else 'withheld', detail='' if want == got else 'the manufacturer filter does not follow the latest claim of the address')
 
 def isoname_ids(chk, program):
     consts = F.module_consts(program)
